@@ -73,6 +73,8 @@ pub struct CallRec {
 pub struct FaultCtl {
   plan: Vec<bool>,
   armed: Cell<bool>,
+  /// While set, `generate` hands out JWKs without a `kid` member (the trait does not promise one).
+  strip_kid: Cell<bool>,
   next: Cell<usize>,
   log: RefCell<Vec<CallRec>>,
 }
@@ -82,6 +84,7 @@ impl FaultCtl {
     Rc::new(FaultCtl {
       plan,
       armed: Cell::new(false),
+      strip_kid: Cell::new(false),
       next: Cell::new(0),
       log: RefCell::new(Vec::new()),
     })
@@ -91,6 +94,9 @@ impl FaultCtl {
   }
   pub fn disarm(&self) {
     self.armed.set(false);
+  }
+  pub fn set_strip_kid(&self, on: bool) {
+    self.strip_kid.set(on);
   }
   /// Number of storage calls made while armed so far.
   pub fn calls(&self) -> usize {
@@ -120,6 +126,12 @@ impl FaultCtl {
       self.log.borrow_mut()[n].ok = ok;
     }
   }
+}
+
+fn strip_kid(jwk: &Jwk) -> Jwk {
+  let mut v = serde_json::to_value(jwk).expect("jwk to JSON");
+  v.as_object_mut().expect("jwk object").remove("kid");
+  serde_json::from_value(v).expect("jwk without kid")
 }
 
 fn key_fault() -> KeyStorageError {
@@ -161,9 +173,12 @@ impl<S: JwkStorage> JwkStorage for FaultyJwkStorage<S> {
     if matches!(slot, Some((_, true))) {
       return Err(key_fault());
     }
-    let r = self.inner.generate(key_type, alg).await;
-    if let Ok(out) = &r {
+    let mut r = self.inner.generate(key_type, alg).await;
+    if let Ok(out) = &mut r {
       self.issued.borrow_mut().push(out.key_id.clone());
+      if self.ctl.strip_kid.get() {
+        out.jwk = strip_kid(&out.jwk);
+      }
     }
     self.ctl.leave(slot, r.is_ok());
     r
